@@ -7,7 +7,7 @@ identities, token values aliasing the source) and the source buffer must be unch
 import json
 import random
 
-from . import core, inputs
+from . import core, inputs, c14
 
 
 def histories(observers, maxlen, check):
@@ -31,8 +31,10 @@ def run(tier):
         hs += histories(["print", "dump00", "dump10", "dump01", "dump11", "traverse", "resolve"], 3, check)
         nprog = 200
     hs = [list(h) for h in sorted(set(tuple(h) for h in hs))]
-    progs = inputs.clean_programs(tier, check)
+    progs = inputs.programs(check, tier)
     progs = sorted(progs, key=lambda p: -len(p["src"]))[:nprog // 2] + rng.sample(progs, nprog // 2)
+    # files with several namespace sections, imports and references whose short names collide (rendered from NsResolver.tla)
+    progs += [{"src": s, "ver": "7.4"} for s in c14.sample_sources(check, tier, nprog // 2)]
     tasks = []
     for p in progs:
         for h in hs:
@@ -58,6 +60,6 @@ def run(tier):
     check.cov["programs"] = len(progs)
     check.sample({"direction": "spec->impl", "history": hs[len(hs) // 2], "program": progs[0]["src"][:200]})
     check.assumptions += ["tree equality = reflection fingerprint incl. slice capacities and object identities (harness/cmd/worker/history.go)",
-                          "programs: corpus until Syntax.tla programs are wired in; histories bounded"]
+                          "programs: corpus, SyntaxGen derivations, rendered NsResolver.tla files; histories bounded"]
     return check.finish({"exhaustive": True,
                          "rule": "all histories over the observers up to the bound (TLC) x each program; distinct = (program, version, history)"})
